@@ -1,4 +1,5 @@
 import MahfModel.Model.Config
+import MahfModel.Model.ConfigReal
 open MahfModel
 
 /-- Field `tag` of an output `((trace …) (res …) (depth …) (dump …))`. -/
@@ -45,4 +46,29 @@ def c03 (input implOut : Sexp) : Option Verdict := do
     else "-"
   pure { agree, holds := cls == "-", cls, model }
 
-def main : IO Unit := driverMain (respond c03)
+/-- Cases over shipped conditions / `State::holding` leaves (`(rtree …)`, Model/ConfigReal.lean): `agree` against
+the code-shaped `rrun`, `holds` against the structured program `rsrun (rprog c)` — same trace, same result
+(no invented error: a `while` whose test is false at once is skipped and the program goes on), every scope
+closed, and the caller's state, scope by scope and key by key, what the program leaves. -/
+def c03Real (input implOut : Sexp) : Option Verdict := do
+  let (model, spec, c) ← ConfigReal.handleRCase input
+  let agree := Sexp.beq model implOut
+  let depthKept := match c03Field "depth" implOut with
+    | some (.list [_, d]) => Sexp.nat? d == some c.pre.length
+    | _ => Sexp.beq implOut Config.illFormed
+  let cls :=
+    if !c03Same "trace" spec implOut then "order"
+    else if !c03Same "res" spec implOut then "err"
+    else if !depthKept || !c03Same "depth" spec implOut then "leak"
+    else if !c03Same "dump" spec implOut then
+      (if Sexp.beq (c03DumpNoCounter spec) (c03DumpNoCounter implOut) then "count" else "lost-state")
+    else if !Sexp.beq spec implOut then "wrong-value"
+    else "-"
+  pure { agree, holds := cls == "-", cls, model }
+
+def c03Any (input implOut : Sexp) : Option Verdict :=
+  match input with
+  | .list (.list (.atom "rtree" :: _) :: _) => c03Real input implOut
+  | _ => c03 input implOut
+
+def main : IO Unit := driverMain (respond c03Any)
